@@ -181,6 +181,30 @@ func descriptorShapes() []shapeCase {
 			return f
 		})
 	}
+	// message names that coincide with names the generators use themselves (built-in OpenAPI components, emitted
+	// TypeScript and Go declarations, JavaScript globals), as request/response, as a field type and nested
+	for _, tn := range []string{"Error", "ValidationError", "FieldViolation", "ApiError", "Timestamp", "Empty", "Any", "Object", "Record", "Response", "Request", "Headers", "Date", "Map", "Promise", "Client", "Server", "Options", "Item_text"} {
+		tn := tn
+		for _, where := range []string{"top", "nested"} {
+			where := where
+			mk("type-names/"+tn+"/"+where, func(pkg string) *spec.File {
+				named := &spec.Message{Name: tn, Fields: []*spec.Field{spec.F("message", 1, spec.String), spec.F("code", 2, spec.Int32)}}
+				ref := "." + pkg + "." + tn
+				f := &spec.File{Messages: []*spec.Message{plain("Req")}}
+				if where == "top" {
+					f.Messages = append(f.Messages, named)
+				} else {
+					ref = "." + pkg + ".Holder." + tn
+					f.Messages = append(f.Messages, &spec.Message{Name: "Holder", Nested: []*spec.Message{named}, Fields: []*spec.Field{spec.F("id", 1, spec.String)}})
+				}
+				f.Messages = append(f.Messages, &spec.Message{Name: "Resp", Fields: []*spec.Field{spec.FM("first", 1, ref), spec.FM("many", 2, ref).Rep(), spec.FM("by_key", 3, ref).MapOf(spec.String)}})
+				f.Services = []*spec.Service{{Name: "NamesService", BasePath: spec.S("/names"), Methods: []*spec.Method{
+					{Name: "Get", In: "." + pkg + ".Req", Out: "." + pkg + ".Resp", HTTP: &spec.HTTP{Path: "/get/{id}", Verb: 1}},
+					{Name: "Direct", In: ref, Out: ref, HTTP: &spec.HTTP{Path: "/direct", Verb: 2}}}}}
+				return f
+			})
+		}
+	}
 	mk("long-names", func(pkg string) *spec.File {
 		long := "Very" + strings.Repeat("LongName", 24)
 		lf := "very_" + strings.Repeat("long_field_", 18) + "x"
